@@ -3,5 +3,5 @@
    no Extract Constant; N, Z, positive stay Coq's binary numbers. *)
 Require Extraction.
 Require Import ExtrOcamlBasic.
-From Deltio Require Import Model.Driver Model.PureDriver Model.FcDriver.
-Extraction "model.ml" run_file pure_file fc_file.
+From Deltio Require Import Model.Driver Model.PureDriver Model.FcDriver Model.CsDriver.
+Extraction "model.ml" run_file pure_file fc_file cs_file.
